@@ -985,8 +985,9 @@ func prop(t *rapid.T) {
 	if big && c.Alloc != "guard" {
 		c.Alloc = "guard" // big memories only with the lazily committed in-place guard allocator
 	}
-	if c.Engine == "compiler" && (c.Pages == 65536 || (c.Pages >= 65534 && (c.Max < 0 || c.Max == 65536))) {
-		// class of the known finding C14-compiler-memlen-32bit / C02-compiler-65536-pages
+	if evid.KnownOpen("C02-compiler-65536-pages") && c.Engine == "compiler" && (c.Pages == 65536 || (c.Pages >= 65534 && (c.Max < 0 || c.Max == 65536))) {
+		// class of the finding C14-compiler-memlen-32bit / C02-compiler-65536-pages (excluded only
+		// while that finding is listed as open; it was repaired by 9433439)
 		evid.Label("excluded-compiler-65536-pages", 1)
 		c.Pages = 65533
 		if c.Max >= 0 {
